@@ -824,3 +824,156 @@ pub fn pa_of(e: &Expr) -> Option<PA> {
     let mut f = |c: &str| c.to_string();
     model::eval(e, &mut f).ok().and_then(|v| model::to_pa(v).ok())
 }
+
+// ---------------------------------------------------------------------------
+// deeper include trees (C11, C12, C14)
+// ---------------------------------------------------------------------------
+
+/// Options of [`split_tree`].
+#[derive(Clone, Debug)]
+pub struct TreeCfg {
+    pub max_files: usize,
+    pub max_depth: usize,
+    /// put a dot-file next to glob matches (valid ledger text with its own transaction, or garbage)
+    pub dotfiles: bool,
+    /// put a same-named decoy where a wrong base directory (the root's) would find it
+    pub decoys: bool,
+}
+
+struct TreeState<'a> {
+    rng: &'a mut Rng,
+    cfg: TreeCfg,
+    files: Vec<FileSpec>,
+    extra: std::collections::BTreeMap<String, String>,
+    counter: usize,
+}
+
+fn decoy_text(n: usize) -> String {
+    format!("2031/01/01 decoy {}\n    Decoy:A    {} DCY\n    Decoy:B\n", n, n + 1)
+}
+
+impl<'a> TreeState<'a> {
+    fn fill(&mut self, idx: usize, entries: Vec<Entry>, depth: usize) {
+        let path = self.files[idx].path.clone();
+        let dir = dirname(&path).to_string();
+        let n = entries.len();
+        let mut i = 0usize;
+        while i < n {
+            let seg = 1 + self.rng.usize(5.min(n - i));
+            let chunk: Vec<Entry> = entries[i..i + seg].to_vec();
+            i += seg;
+            let left = self.cfg.max_files.saturating_sub(self.files.len());
+            if left == 0 || depth >= self.cfg.max_depth || self.rng.chance(1, 3) {
+                for e in chunk {
+                    self.files[idx].push(e);
+                }
+                continue;
+            }
+            self.counter += 1;
+            let k = self.counter;
+            // relative directory of the child, seen from the including file
+            let rel_dir: String = match self.rng.below(6) {
+                0 | 1 => String::new(),
+                2 => format!("d{}/", k),
+                3 => "sub/".to_string(),
+                4 if dir != "/w" => "../".to_string(),
+                4 => "./".to_string(),
+                _ => format!("sub/../s{}/", k),
+            };
+            let abs_dir = normalize(&format!("{}/{}", dir, rel_dir));
+            let abs_dir = if abs_dir == "/" { "/w".to_string() } else { abs_dir };
+            // never climb above /w
+            let (rel_dir, abs_dir) = if abs_dir.starts_with("/w") {
+                (rel_dir, abs_dir)
+            } else {
+                (String::new(), dir.clone())
+            };
+            // `sub/../sK/` needs `sub` to exist as a directory on a real file system
+            if rel_dir.starts_with("sub/../") {
+                let keep = format!("{}/sub/.keep", dir);
+                self.extra.entry(keep).or_insert_with(|| "keep\n".to_string());
+            }
+            let use_glob = chunk.len() >= 2 && left >= 2 && self.rng.chance(1, 2);
+            if use_glob {
+                let parts = 2 + self.rng.usize((chunk.len() - 1).min(left - 1).min(3));
+                let per = chunk.len().div_ceil(parts);
+                let question = self.rng.chance(1, 4);
+                let mut made: Vec<(usize, Vec<Entry>)> = Vec::new();
+                for (pi, c) in chunk.chunks(per).enumerate() {
+                    let p = format!("{}/part{}-{:02}.ledger", abs_dir, k, pi + 1);
+                    let mut f = FileSpec::new(&p);
+                    f.crlf = self.rng.chance(1, 6);
+                    self.files.push(f);
+                    made.push((self.files.len() - 1, c.to_vec()));
+                }
+                let pat = if question {
+                    format!("{}part{}-??.ledger", rel_dir, k)
+                } else {
+                    format!("{}part{}-*.ledger", rel_dir, k)
+                };
+                self.files[idx].push(Entry::Include(pat));
+                if self.cfg.dotfiles && self.rng.chance(1, 2) {
+                    let text = if self.rng.chance(1, 2) {
+                        decoy_text(k)
+                    } else {
+                        "this dot file is not a ledger and must never be loaded\n".to_string()
+                    };
+                    // sorts before and between the real parts
+                    let name = if self.rng.chance(1, 2) {
+                        format!("{}/.part{}-00.ledger", abs_dir, k)
+                    } else {
+                        format!("{}/.part{}-01.ledger", abs_dir, k)
+                    };
+                    self.extra.insert(name, text);
+                }
+                if self.cfg.decoys && abs_dir != "/w" && !rel_dir.starts_with("..") {
+                    // what a loader resolving relative to the root's directory (or the cwd) would find
+                    let wrong = normalize(&format!("/w/{}part{}-01.ledger", rel_dir, k));
+                    if wrong != format!("{}/part{}-01.ledger", abs_dir, k) && !self.files.iter().any(|f| f.path == wrong) {
+                        self.extra.entry(wrong).or_insert_with(|| decoy_text(k));
+                    }
+                }
+                for (fi, c) in made {
+                    self.fill(fi, c, depth + 1);
+                }
+            } else {
+                let p = format!("{}/inc{}.ledger", abs_dir, k);
+                let mut f = FileSpec::new(&p);
+                f.crlf = self.rng.chance(1, 6);
+                self.files.push(f);
+                let fi = self.files.len() - 1;
+                self.files[idx].push(Entry::Include(format!("{}inc{}.ledger", rel_dir, k)));
+                if self.cfg.decoys && abs_dir != "/w" && dir != "/w" && !rel_dir.starts_with("..") {
+                    let wrong = normalize(&format!("/w/{}inc{}.ledger", rel_dir, k));
+                    if wrong != p && !self.files.iter().any(|f| f.path == wrong) {
+                        self.extra.entry(wrong).or_insert_with(|| decoy_text(k));
+                    }
+                }
+                self.fill(fi, chunk, depth + 1);
+            }
+        }
+    }
+}
+
+/// Cuts `entries` into an include tree up to `max_depth` deep: literal and glob includes,
+/// sub-directories, `..`, `./`, `sub/../x/` paths, all relative to the *including* file.
+/// The model's flattening of the result is the original sequence.
+pub fn split_tree(rng: &mut Rng, entries: Vec<Entry>, crlf: bool, cfg: &TreeCfg) -> World {
+    let mut root = FileSpec::new("/w/main.ledger");
+    root.crlf = crlf;
+    let mut st = TreeState {
+        rng,
+        cfg: cfg.clone(),
+        files: vec![root],
+        extra: std::collections::BTreeMap::new(),
+        counter: 0,
+    };
+    st.fill(0, entries, 0);
+    let mut world = World {
+        files: st.files,
+        extra: st.extra,
+    };
+    // an empty included file is legal but uninteresting for glob matching; keep it anyway
+    randomize_blanks(rng, &mut world);
+    world
+}
